@@ -12,6 +12,7 @@ import (
 	"github.com/alecthomas/participle/v2/lexer"
 	"pgregory.net/rapid"
 
+	"verifharness/fixtures"
 	"verifharness/gram"
 	"verifharness/vstat"
 )
@@ -489,7 +490,21 @@ func checkC19(c *c19Case, r *vstat.Run) outcome {
 		if r != nil {
 			r.Journal(c, "Build of a static recursive type")
 		}
-		pmsg = guard(func() { built, buildErr = buildStatic(c.Static) })
+		pmsg = guard(func() {
+			if ex := strings.TrimPrefix(c.Static, "example:"); ex != c.Static {
+				// the repository's example grammars, built when the test binary starts
+				ok, msg := fixtures.ExampleBuild(ex)
+				built = ok
+				if !ok {
+					buildErr = fmt.Errorf("%s", msg)
+					if strings.HasPrefix(msg, "Build panicked") {
+						panic(msg)
+					}
+				}
+				return
+			}
+			built, buildErr = buildStatic(c.Static)
+		})
 		if r != nil {
 			r.JournalDone()
 		}
@@ -497,6 +512,9 @@ func checkC19(c *c19Case, r *vstat.Run) outcome {
 		case "OnlyUnexported", "NoTags", "LeftRec", "DeepBad", "EmbedBadLater", "EmbedUnclosedLater":
 			expect, reason = tagMalformed, "no usable field / left recursion / unknown token type in a deeply embedded field"
 		case "Unexported", "Nested", "Rec", "EmbedSelf", "EmbedPair", "EmbedVal", "Deep":
+			expect = tagValid
+		}
+		if strings.HasPrefix(c.Static, "example:") {
 			expect = tagValid
 		}
 	default:
@@ -893,6 +911,9 @@ func propC19(t *rapid.T, r *vstat.Run) {
 		case k <= 16:
 			c.Origin = "static"
 			c.Static = rapid.SampledFrom(c19Statics).Draw(t, "static")
+			if rapid.IntRange(0, 9).Draw(t, "example") == 0 {
+				c.Static = "example:" + rapid.SampledFrom(fixtures.Examples).Draw(t, "examplegrammar")
+			}
 		default:
 			c.Origin = "rawsoup"
 			// raw byte soup as the tag text, incl. NUL and invalid UTF-8
